@@ -786,6 +786,73 @@ func finalStateCheck(rows int, hist []HTxn, final [][]any) *Violation {
 	return nil
 }
 
+// abortTraceCheck (C03 under concurrency): nothing written by a transaction that aborted (explicitly or
+// by a lock conflict in the middle of a statement) is in the final table, and no row such a
+// transaction changed or deleted differs from what the committed transactions left.
+func abortTraceCheck(rows int, hist []HTxn, final [][]any) *Violation {
+	abortedTok := map[int32]int{}
+	abortedKey := map[int32]int{}
+	for i := range hist {
+		t := &hist[i]
+		if t.Outcome == "committed" || t.Outcome == "" {
+			continue
+		}
+		for _, s := range t.Stmts {
+			switch s.St.Kind {
+			case "write", "writerange", "insert":
+				abortedTok[s.St.Token] = t.ID
+				for _, k := range s.St.keys(rows) {
+					abortedKey[k] = t.ID
+				}
+			case "delete":
+				for _, k := range s.St.keys(rows) {
+					abortedKey[k] = t.ID
+				}
+			}
+		}
+	}
+	got := map[int32]int32{}
+	for _, r := range final {
+		k, _ := r[0].(int32)
+		v, _ := r[1].(int32)
+		got[k] = v
+		if id, ok := abortedTok[v]; ok {
+			return &Violation{Property: "C03", Class: "aborted-write-survives", Detail: fmt.Sprintf("final table holds (%d,%d), written by txn %d which aborted", k, v, id)}
+		}
+	}
+	// rows an aborted transaction touched must be exactly what the committed transactions left
+	if v := finalStateCheck(rows, hist, final); v != nil {
+		exp := map[int32]bool{}
+		for k := int32(1); k <= int32(rows); k++ {
+			exp[k] = true
+		}
+		for k, id := range abortedKey {
+			if _, present := got[k]; !present && exp[k] {
+				// deleted by nobody who committed?
+				deletedByCommitted := false
+				for i := range hist {
+					if hist[i].Outcome != "committed" {
+						continue
+					}
+					for _, s := range hist[i].Stmts {
+						if s.St.Kind == "delete" && s.Status == "ok" {
+							for _, kk := range s.St.keys(rows) {
+								if kk == k {
+									deletedByCommitted = true
+								}
+							}
+						}
+					}
+				}
+				if !deletedByCommitted {
+					return &Violation{Property: "C03", Class: "aborted-change-not-restored", Detail: fmt.Sprintf("row %d, touched by txn %d which aborted, is missing from the final table although no committed transaction deleted it", k, id)}
+				}
+			}
+		}
+	}
+	return nil
+}
+
 func init() {
 	drivers["txnsim"] = runTxnSim
 	replayers["txnsim"] = func(rf *ReplayFile) (bool, string) {
